@@ -1462,7 +1462,7 @@ class ClassicChannel(utils.EventEmitter):
                 case L2CAP_Configure_Request.ParameterType.FCS:
                     enabled = option[1][0] != 0
                     logger.debug("Peer requests FCS: %s", enabled)
-                    if (
+                    if not enabled or (
                         L2CAP_Information_Request.ExtendedFeatures.FCS_OPTION
                         in self.manager.extended_features
                     ):
@@ -1473,7 +1473,8 @@ class ClassicChannel(utils.EventEmitter):
                         result = (
                             L2CAP_Configure_Response.Result.FAILURE_UNACCEPTABLE_PARAMETERS
                         )
-                        replied_options = [option]
+                        # Suggest what would be accepted: no FCS
+                        replied_options = [(option[0], bytes([0]))]
                         break
                 case _:
                     logger.debug(
@@ -1532,6 +1533,11 @@ class ClassicChannel(utils.EventEmitter):
             == L2CAP_Configure_Response.Result.FAILURE_UNACCEPTABLE_PARAMETERS
         ):
             # Re-configure with what's suggested in the response
+            for option in L2CAP_Control_Frame.decode_configuration_options(
+                response.options
+            ):
+                if option[0] == L2CAP_Configure_Request.ParameterType.FCS:
+                    self.fcs_enabled = option[1][0] != 0
             self.send_control_frame(
                 L2CAP_Configure_Request(
                     identifier=self.manager.next_identifier(self.connection),
